@@ -1,5 +1,6 @@
 import Feox.Fmt.Recover
 import Feox.Fmt.Migrate
+import Feox.Proto.Generations
 /-! Line-protocol front end for the `Fmt` model. -/
 namespace Feox.Drv.FmtDrv
 open Feox.Fmt Feox.Gen
@@ -167,6 +168,21 @@ def handleIO (args : List String) : IO (Option String) := do
           let body := if img' == img then "same" else toString (bodyDigest img')
           s!"{rerrName e} body={body} writes={out.io.length}"))
     | _, _ => pure none
+  | ["gens", now, gens] =>
+    -- generation-level view (Proto.Generations): what a completed recovery exposes per key
+    match now.toNat? with
+    | none => pure none
+    | some now =>
+      let parse (t : String) : Option Proto.Gens.Gen :=
+        match (t.splitOn ":").mapM String.toNat? with
+        | some [k, ts, e, sec] => some ⟨k, ts, e, sec⟩
+        | _ => none
+      match (if gens == "-" then some [] else (gens.splitOn ",").mapM parse) with
+      | none => pure none
+      | some G =>
+        let keys := (G.map (·.key)).eraseDups.mergeSort (· ≤ ·)
+        let shown := keys.filterMap fun k => (Proto.Gens.exposed now k G).map fun g => s!"{g.key}:{g.ts}:{g.expiry}:{g.sector}"
+        pure (some ("ok " ++ ",".intercalate shown).trimAsciiEnd.toString)
   | ["migrate", src, amb, recsize, dst] =>
     match recsize.toNat? with
     | none => pure none
